@@ -110,6 +110,10 @@ func runC08(p *Prog, r *Report) {
 	if want("C08.8") {
 		ruleReadErrorsSurface(p, r, "C08.8")
 	}
+	if want("C08.13") {
+		// a block or table that cannot be read is never skipped as if it were empty
+		ruleIndexedIterator(p, r, "C08.13")
+	}
 	if want("C08.12") {
 		ruleStrictFlagRoles(p, r, "C08.12")
 	}
